@@ -277,6 +277,13 @@ fn independent_tables(obj: &[u8], nchunks: usize) -> Option<(Vec<MerkleHash>, Ve
 /// "any footer it relied on matches the chunk data": the object returned by an accepting validator against the chunk region
 fn footer_mismatch(obj: &[u8], c: &CasObject) -> Option<String> {
     let n = c.info.num_chunks as usize;
+    // the footer the validator relied on sits right behind the chunks it describes: nothing between the last chunk and the footer
+    if let Some(last) = c.info.chunk_boundary_offsets.last() {
+        if c.info_length > 0 && (*last as usize) + (c.info_length as usize) + 4 != obj.len() && obj.len() >= 4 {
+            let il = u32::from_le_bytes(obj[obj.len() - 4..].try_into().unwrap()) as usize;
+            if il == c.info_length as usize { return Some(format!("the chunks end at byte {last} but the footer ({} bytes + length word) starts at byte {}: {} undescribed bytes in between", c.info_length, obj.len() - 4 - il, obj.len() as i64 - 4 - il as i64 - *last as i64)); }
+        }
+    }
     let Some((hs, bs, us)) = independent_tables(obj, n) else { return Some(format!("the chunk region does not hold {n} decodable chunks")); };
     if c.info.chunk_hashes != hs { return Some("chunk_hashes differ from the hashes of the decoded chunks".into()); }
     if c.info.chunk_boundary_offsets != bs { return Some(format!("chunk_boundary_offsets {:?} differ from the chunk region's {:?}", &c.info.chunk_boundary_offsets[..n.min(6)], &bs[..n.min(6)])); }
@@ -553,6 +560,15 @@ pub fn run_validate(ctx: &mut Ctx) {
                 emit!(ctx, &rt, &m, &b.hash, "structured-footer", &replay);
                 if foreign { emit!(ctx, &rt, &m, &other, "structured-footer-foreign-hash", &replay); }
             }
+        }
+        // extra bytes spliced exactly between the chunk list and the UNMODIFIED footer
+        for kind in 0..3 {
+            let mut m = b.obj[..clen].to_vec();
+            match kind { 0 => { let bo = &b.cas.info.chunk_boundary_offsets; let i = rng.below(n as u64) as usize; let s0 = if i == 0 { 0 } else { bo[i - 1] as usize }; let extra = b.obj[s0..bo[i] as usize].to_vec(); m.extend_from_slice(&extra); }
+                         1 => { let k = rng.range(1, 40) as usize; m.extend_from_slice(&rng.bytes(k)); }
+                         _ => m.push(rng.below(256) as u8) }
+            m.extend_from_slice(&b.obj[clen..]);
+            emit!(ctx, &rt, &m, &b.hash, "splice-before-footer", &replay);
         }
         {
             let mut f = FooterV1::of(&b); f.cashash = other;
